@@ -11,7 +11,7 @@ vars == <<l, caseN, obs>>
 Idx(o) == 1 .. Len(o)
 (* after every fault a fresh session is opened and an envelope pushed on it reaches a handler *)
 C19_Recovers(o) ==
-  \A i \in Idx(o) : o[i].k = "fault" =>
+  \A i \in Idx(o) : (o[i].k = "fault" /\ o[i].res # "vanish") =>      \* ("vanish": the server is not reachable any more)
     \E j \in (i + 1) .. Len(o) : /\ o[j].k = "session"
        /\ \E p \in (j + 1) .. Len(o) : o[p].k = "pushed" /\
             \E d \in (p + 1) .. Len(o) : o[d].k = "delivered" /\ o[d].tag = o[p].tag
@@ -53,10 +53,12 @@ C08_ClientTruthful(o) ==
 C13_ClientReleases(o) ==
   (\E i \in Idx(o) : o[i].k = "end" /\ o[i].res = "closed") =>
      \A i \in Idx(o) : o[i].k = "session" => \E j \in Idx(o) : o[j].k = "released" /\ o[j].n = o[i].n
+(* closing the client ends its listener, also when it holds no channel at that moment (C13: nothing left behind) *)
+C13_ClientListenerEnds(o) == \A i \in Idx(o) : o[i].k = "listener" => o[i].res = "gone"
 C19_Closes(o) == \A i \in Idx(o) : o[i].k = "end" => o[i].res = "closed"
 Ops(o) == << <<"C19_Recovers", C19_Recovers(o)>>, <<"C19_NoSpin", C19_NoSpin(o)>>,
              <<"C19_SendTruth", C19_SendTruth(o)>>, <<"C19_Closes", C19_Closes(o)>>,
-             <<"C13_ClientReleases", C13_ClientReleases(o)>>, <<"C08_ClientTruthful", C08_ClientTruthful(o)>>,
+             <<"C13_ClientReleases", C13_ClientReleases(o)>>, <<"C13_ClientListenerEnds", C13_ClientListenerEnds(o)>>, <<"C08_ClientTruthful", C08_ClientTruthful(o)>>,
              <<"C19_Responsive", C19_Responsive(o)>>, <<"C11_PingReply", C11_PingReply(o)>>,
              <<"C08_ClientNoPanic", C08_ClientNoPanic(o)>>,
              <<"C04_SrvOwnHandler", C04_SrvOwnHandler(o)>>, <<"C02_SrvSurvives", C02_SrvSurvives(o)>> >>
